@@ -43,7 +43,10 @@ class UserData:
 
         try:
             j = json.loads(value)
-        except json.decoder.JSONDecodeError:
+            # It must also be possible to print it again inside the PEL:
+            # no NaN/Infinity, nesting within the interpreter's limits.
+            json.dumps([[j]], indent=4, allow_nan=False)
+        except (ValueError, RecursionError):
             # This should have been valid JSON but if it isn't
             # then hexdump it.
             mv = memoryview(value.encode('utf-8'))
